@@ -557,7 +557,8 @@ class ArgumentParser(ParserDeprecations, ActionsContainer, ArgumentLinking, argp
                         env_val = list_env_val if isinstance(list_env_val, list) else [env_val]
                     except get_loader_exceptions():
                         env_val = [env_val]
-                cfg[action.dest] = self._check_value_key(action, env_val, action.dest, cfg)
+                prev_cfg = cfg_base if cfg_base and action.dest not in cfg else cfg
+                cfg[action.dest] = self._check_value_key(action, env_val, action.dest, prev_cfg)
         self._apply_actions(cfg)
         return cfg
 
